@@ -218,6 +218,28 @@ def run(ctx):
                       "while the same group with its members reordered is still reported" % norm(flag)[:50],
                       desc="top-level flag `%s` decided by identity" % norm(flag)[:40])
     ctx.floor("R4.5", "depth flags computed in get_all_groups", n_flag, 1)
+    # the same for every validator: a *group* is never looked up in a list of groups with `in` (group equality is order-sensitive)
+    GROUP_ITERS = ("get_all_groups", "groups", "get_first_group")
+    n_gl = 0
+    for f in prog.functions.values():
+        if not f.module.name.startswith("hed.validator"):
+            continue
+        gvars = set()
+        for lp in ast.walk(f.node):
+            if isinstance(lp, (ast.For, ast.comprehension)) and isinstance(lp.iter, ast.Call) and call_name(lp.iter) in GROUP_ITERS \
+                    and isinstance(lp.target, ast.Name):
+                gvars.add(lp.target.id)
+        n_gl += len(gvars)
+        for c in walk_no_nested(f.node):
+            if isinstance(c, ast.Compare) and len(c.ops) == 1 and isinstance(c.ops[0], (ast.In, ast.NotIn)) and \
+                    isinstance(c.left, ast.Name) and c.left.id in gvars:
+                ctx.saw(f)
+                ctx.violation("R4.5", f.qualname, c, loc(f, c),
+                              "`%s` looks a group up in a collection of groups by equality: a group elsewhere in the annotation that has "
+                              "the same members in the same order as a group inside a Definition is taken for that group (and skips its "
+                              "placeholder check), while the same group with its members reordered is not" % norm(c)[:50])
+    ctx.ok("R4.5", "%d loop variables over groups in the validators: none is looked up with `in`" % n_gl, "")
+    ctx.floor("R4.5", "loop variables over groups in the validators", n_gl, 1)
     ctx.rule("R4.4", "sibling loops of the validators keep no conditional state from one sibling to the next")
     from sa.stale import check_no_stale_state
     sib = [f for f in prog.functions.values() if f.module.name in (
